@@ -16,6 +16,10 @@ import DeapModel.Lemmas.C07Transl
 import DeapModel.Lemmas.C07Full
 import DeapModel.Lemmas.C07Mem
 import DeapModel.Lemmas.C07Depth
+import DeapModel.Lemmas.C07Ovf
+import DeapModel.Lemmas.C07QSel
+import DeapModel.Lemmas.C07E2E
+import DeapModel.Lemmas.C07E2EN
 
 set_option linter.unusedSectionVars false
 set_option linter.unusedVariables false
@@ -105,6 +109,82 @@ theorem spea2_nd_clauses {β : Type} [LinearOrder β] (pop : List (List β)) (k 
 
 example : (1 : Nat) ≤ 2 ∧ 2 ≤ [[1, 2], [2, 1], [0, 0]].length := by decide
 
+/-! ### squared distances that overflowed to `float("inf")`
+
+`selSPEA2V` takes the *computed* matrix entries as float values: `fin a` or `inf` (objective values
+beyond ~1e154: `val * val` overflows).  Then a surviving row can tie with a removed all-`inf` row and
+`to_remove` can repeat position 0; the deletion loop still removes one element per entry.  The four
+clauses of the property hold for EVERY matrix of computed entries. -/
+
+/-- without overflow `selSPEA2V` is `selSPEA2`. -/
+theorem spea2V_no_overflow (dom : Nat → Nat → Bool) (N k : Nat) (fits : Nat → α) (D : Nat → Nat → α) :
+    selSPEA2V dom N k fits (fun i j => DVal.fin (D i j)) = selSPEA2 dom N k fits D :=
+  selSPEA2V_fin dom N k fits D
+
+/-- exactly `k` individuals, whatever overflowed. -/
+theorem spea2V_len (dom : Nat → Nat → Bool) (N k : Nat) (fits : Nat → α) (D : Nat → Nat → DVal α)
+    (hk : 1 ≤ k) (hkN : k ≤ N) : (selSPEA2V dom N k fits D).length = k :=
+  selSPEA2V_length dom N k fits D hk hkN
+
+/-- six mutually non-dominated individuals, every distance overflowed, `k = 2`: `to_remove` is
+`[0, 0, 0, 0]` and the four deletions of position 0 leave the last two individuals. -/
+example : toRemoveV (fun _ _ => (DVal.inf : DVal Int)) 6 2 = [0, 0, 0, 0] ∧
+    chosen0 (domW [[0, -5], [-1, -4], [-2, -3], [-3, -2], [-4, -1], [-5, 0]]) 6 = [0, 1, 2, 3, 4, 5] ∧
+    delDesc [0, 1, 2, 3, 4, 5] [0, 0, 0, 0] = [4, 5] := by
+  refine ⟨by decide, by decide, ?_⟩
+  simp [delDesc, List.mergeSort, List.MergeSort.Internal.splitInTwo]
+
+/-- input objects, none twice, whatever overflowed. -/
+theorem spea2V_sub_perm (dom : Nat → Nat → Bool) (N k : Nat) (fits : Nat → α) (D : Nat → Nat → DVal α)
+    (hk : 1 ≤ k) (hkN : k ≤ N) :
+    (selSPEA2V dom N k fits D).Nodup ∧ ∀ i ∈ selSPEA2V dom N k fits D, i < N :=
+  selSPEA2V_nodup dom N k fits D hk hkN
+
+example : (1 : Nat) ≤ 2 ∧ 2 ≤ 6 := by decide
+
+/-- the truncation loop for arbitrary computed entries appends `N - k` positions `< N`; a position
+other than 0 is never appended twice (`min_pos` leaves its initial value 0 only for a row that wins
+a strict comparison, which an all-`inf` row never does). -/
+theorem spea2_to_remove_overflow (D : Nat → Nat → DVal α) (N k : Nat) (hk : 1 ≤ k) (hkN : k ≤ N) :
+    ((toRemoveV D N k).filter (fun r => decide (r ≠ 0))).Nodup ∧ (∀ r ∈ toRemoveV D N k, r < N) ∧
+    (toRemoveV D N k).length = N - k :=
+  toRemoveV_spec D N k hk hkN
+
+example : toRemoveV (fun i j => if i + j = 3 then DVal.fin (1 : Int) else DVal.inf) 5 2 = [0, 1, 0] := by
+  decide
+
+/-- the deletion loop `for index in reversed(sorted(to_remove)): del chosen_indices[index]` on a list
+of positions in which only 0 repeats: every `del` is in range and removes one element. -/
+theorem spea2_deletion_loop (chosen rem : List Nat)
+    (hnz : (rem.filter (fun r => decide (r ≠ 0))).Nodup) (hlt : ∀ r ∈ rem, r < chosen.length)
+    (hlen : rem.length ≤ chosen.length) :
+    (delDesc chosen rem).length = chosen.length - rem.length ∧ (delDesc chosen rem).Sublist chosen :=
+  delDesc_spec_dup chosen rem hnz hlt hlen
+
+example : delDesc [10, 11, 12, 13, 14] [0, 3, 0] = [12, 14] := by
+  simp [delDesc, List.mergeSort, List.MergeSort.Internal.splitInTwo]
+
+/-- every non-dominated individual when at most `k` are, whatever overflowed. -/
+theorem spea2V_all_nd_when_few (dom : Nat → Nat → Bool) (N k : Nat) (fits : Nat → α)
+    (D : Nat → Nat → DVal α) (hasym : ∀ i j, dom i j = true → dom j i = false)
+    (hk : 1 ≤ k) (hkN : k ≤ N) (hfew : ndCount dom N ≤ k) :
+    ∀ i, i < N → NonDom dom N i → i ∈ selSPEA2V dom N k fits D := by
+  apply selSPEA2V_all_nd dom N k fits D hasym hk hkN
+  rw [chosen0_eq_filter dom N hasym]; exact hfew
+
+example : ndCount (domW [[1, 2], [2, 1], [0, 0]]) 3 ≤ 2 := by decide
+
+/-- only non-dominated individuals when at least `k` are, whatever overflowed. -/
+theorem spea2V_only_nd_when_many (dom : Nat → Nat → Bool) (N k : Nat) (fits : Nat → α)
+    (D : Nat → Nat → DVal α) (hasym : ∀ i j, dom i j = true → dom j i = false)
+    (hk : 1 ≤ k) (hmany : k ≤ ndCount dom N) :
+    ∀ i ∈ selSPEA2V dom N k fits D, NonDom dom N i := by
+  apply selSPEA2V_only_nd dom N k fits D hasym hk
+  rw [chosen0_eq_filter dom N hasym]; exact hmany
+
+example : (1 : Nat) ≤ 2 ∧
+    2 ≤ ndCount (domW [[0, -5], [-1, -4], [-2, -3], [-3, -2], [-4, -1], [-5, 0]]) 6 := by decide
+
 end SPEA2
 
 /-! ### the quick-select behind `kth_dist` (`_randomizedSelect`, emo.py:827-862)
@@ -138,6 +218,123 @@ theorem partition_split (a : List β) (b e d : Nat) (hbe : b < e) (he : e < a.le
 example : randomizedPartition [3, 5, 1, 4, 1, 3] 0 5 3 = some ([3, 1, 1, 3, 5, 4], 3) := by decide
 
 end Select
+
+/-! ### the quick-select returns the order statistic -/
+
+section SelectCorrect
+variable {β : Type} [Ring β] [LinearOrder β] [IsStrictOrderedRing β]
+
+/-- `_randomizedSelect(array, begin, end, i)` with `r ≤ i < r + 1` (`r = ⌊i⌋`, `r ≤ end - begin`): on
+every pivot tape (each draw is read modulo the size of its range, so every tape stays in range) with
+at least `end - begin` draws it terminates, and it returns entry `r` of the sorted sub-array
+`sorted(array[begin..end])` — the `r`-th smallest element (0-based). -/
+theorem randomizedSelect_correct (a : List β) (b e : Nat) (i : β) (r : Nat) (tape : List Nat)
+    (hbe : b ≤ e) (he : e < a.length) (hr : r ≤ e - b) (hi1 : (r : β) ≤ i) (hi2 : i < (r : β) + 1)
+    (ht : e - b ≤ tape.length) :
+    ∃ v, randomizedSelect (fun n => (n : β)) (a.length + 2) a b e i tape = some v ∧
+      (((a.drop b).take (e + 1 - b)).mergeSort (fun x y => decide (x ≤ y)))[r]? = some v := by
+  have hs := randomizedSelect_isSome (fun n => (n : β)) a b e i tape hbe he ht
+  obtain ⟨v, hv⟩ := Option.isSome_iff_exists.1 hs
+  exact ⟨v, hv, randomizedSelect_correct_aux _ a b e i r tape v hbe he hr hi1 hi2 hv⟩
+
+example : (0 : Nat) ≤ 5 ∧ 5 < ([7, 2, 9, 2, 5, 1] : List ℚ).length ∧ (2 : Nat) ≤ 5 - 0 ∧
+    ((2 : Nat) : ℚ) ≤ 5 / 2 ∧ (5 / 2 : ℚ) < ((2 : Nat) : ℚ) + 1 ∧ 5 - 0 ≤ [4, 2, 1, 0, 3].length := by
+  refine ⟨by decide, by decide, by decide, by norm_num, by norm_num, by decide⟩
+
+/-- … and whenever it answers at all (any fuel, any tape, even a short one) the answer is that
+order statistic. -/
+theorem quickselect_answer_correct (fuel : Nat) (a : List β) (b e : Nat) (i : β) (r : Nat)
+    (tape : List Nat) (v : β) (hbe : b ≤ e) (he : e < a.length) (hr : r ≤ e - b)
+    (hi1 : (r : β) ≤ i) (hi2 : i < (r : β) + 1)
+    (h : randomizedSelect (fun n => (n : β)) fuel a b e i tape = some v) :
+    (((a.drop b).take (e + 1 - b)).mergeSort (fun x y => decide (x ≤ y)))[r]? = some v :=
+  randomizedSelect_correct_aux fuel a b e i r tape v hbe he hr hi1 hi2 h
+
+/-- index 5/2 on `[7, 2, 9, 2, 5, 1]`: the answer 2 is entry 2 of `[1, 2, 2, 5, 7, 9]`. -/
+example : randomizedSelect (fun n => ((n : Nat) : ℚ)) 8 [7, 2, 9, 2, 5, 1] 0 5 (5 / 2) [4, 2, 1, 0, 3] = some 2 := by
+  decide +kernel
+
+/-- the order statistic is permutation invariant: the sorted form depends on the multiset only. -/
+theorem order_statistic_perm_invariant (l l' : List β) (h : l.Perm l') :
+    l.mergeSort (fun x y => decide (x ≤ y)) = l'.mergeSort (fun x y => decide (x ≤ y)) ∧
+    (l.mergeSort (fun x y => decide (x ≤ y))).Pairwise (· ≤ ·) ∧
+    (l.mergeSort (fun x y => decide (x ≤ y))).Perm l :=
+  ⟨sortL_eq_of_perm h, sortL_pairwise l, sortL_perm l⟩
+
+example : ([3, 1, 2] : List ℚ).Perm [1, 2, 3] := by decide
+
+/-- the selection reads only the integer part of its index argument: `K = sqrt(N)` behaves as
+`⌊sqrt N⌋` (the code only compares `K - c < k` with integers `c`, `k`). -/
+theorem quickselect_floor (fuel : Nat) (a : List β) (b e : Nat) (i : β) (r : Nat) (tape : List Nat)
+    (hi1 : (r : β) ≤ i) (hi2 : i < (r : β) + 1) :
+    randomizedSelect (fun n => (n : β)) fuel a b e i tape =
+      randomizedSelect (fun n => (n : β)) fuel a b e (r : β) tape :=
+  randomizedSelect_floor fuel a b e i r tape hi1 hi2
+
+example : ((1 : Nat) : ℚ) ≤ 3 / 2 ∧ (3 / 2 : ℚ) < ((1 : Nat) : ℚ) + 1 := by constructor <;> norm_num
+
+end SelectCorrect
+
+/-- the quick-select that hands back the rest of the tape (consecutive calls of `selSPEA2` draw from
+one generator) returns the same value, and the rest is a suffix of the tape. -/
+theorem quickselect_threaded {β : Type} [LinearOrder β] [Sub β] (ofNat : Nat → β) (fuel : Nat)
+    (a : List β) (b e : Nat) (i : β) (tape : List Nat) :
+    (randomizedSelectT ofNat fuel a b e i tape).map Prod.fst = randomizedSelect ofNat fuel a b e i tape ∧
+    ∀ v rest, randomizedSelectT ofNat fuel a b e i tape = some (v, rest) → rest.IsSuffix tape :=
+  ⟨randomizedSelectT_fst ofNat fuel a b e i tape,
+   fun v rest h => randomizedSelectT_suffix ofNat fuel a b e i tape v rest h⟩
+
+/-! ### `selSPEA2` end to end (`selSPEA2E`): strengths, raw fitness, distances, quick-select and
+densities computed by the model from the weights and the weighted values -/
+
+section SPEA2E
+variable {β : Type} [Field β] [LinearOrder β] [IsStrictOrderedRing β]
+
+/-- whatever `selSPEA2E` answers — on every tape of pivot draws — satisfies every SPEA2 clause of the
+property: exactly `k` input objects, none twice, all non-dominated ones when at most `k` are, only
+non-dominated ones when at least `k` are. -/
+theorem spea2_e2e_spec (w : List β) (wv : List (List β)) (k : Nat) (tape : List Nat) (res : List Nat)
+    (h : selSPEA2E (fun n => (n : β)) w wv k tape = some res) (hk : 1 ≤ k) (hkN : k ≤ wv.length) :
+    res.length = k ∧ res.Nodup ∧ (∀ i ∈ res, i < wv.length) ∧
+    (ndCount (domW wv) wv.length ≤ k →
+      ∀ i, i < wv.length → NonDom (domW wv) wv.length i → i ∈ res) ∧
+    (k ≤ ndCount (domW wv) wv.length → ∀ i ∈ res, NonDom (domW wv) wv.length i) := by
+  obtain ⟨fits, rfl, _⟩ := selSPEA2E_eq w wv k tape res h
+  exact ⟨spea2_len _ _ _ _ _ hk hkN, (spea2_sub_perm _ _ _ _ _ hk hkN).1,
+    (spea2_sub_perm _ _ _ _ _ hk hkN).2,
+    (spea2_nd_clauses wv k fits (distE w wv) hk hkN).1, (spea2_nd_clauses wv k fits (distE w wv) hk hkN).2⟩
+
+example : selSPEA2E (fun n => ((n : Nat) : ℚ)) [1, 1] [[1, 2], [2, 1], [0, 0]] 2 [] = some [0, 1] := by
+  decide +kernel
+
+/-- `selSPEA2E` is `selSPEA2` for the squared distances of the fitness values and — archive too
+small — for the line-759 values `raw fitness + 1 / (kth + 2)`, where `kth` is entry `⌊sqrt N⌋` of the
+sorted row `[0.0] * (i + 1) + [dist(i, j) for j > i]` (the `⌊sqrt N⌋`-th nearest "neighbour" as the
+code defines it). -/
+theorem spea2_e2e_density (w : List β) (wv : List (List β)) (k : Nat) (tape : List Nat) (res : List Nat)
+    (h : selSPEA2E (fun n => (n : β)) w wv k tape = some res) :
+    ∃ fits : Nat → β,
+      res = selSPEA2 (domW wv) wv.length k fits (distE w wv) ∧
+      ((chosen0 (domW wv) wv.length).length < k → 2 ≤ wv.length →
+        ∀ t, t < wv.length → ∃ kth,
+          ((distRow (fun n => (n : β)) (fun i => valuesOf w (wv.getD i [])) wv.length t).mergeSort
+            (fun x y => decide (x ≤ y)))[Nat.sqrt wv.length]? = some kth ∧
+          fits t = (rawFit (domW wv) wv.length t : β) + 1 / (kth + 2)) :=
+  selSPEA2E_eq w wv k tape res h
+
+/-- `selSPEA2E` answers on every tape with `N (N - 1)` pivot draws (each of the `N` selections needs
+at most `N - 1`). -/
+theorem spea2_e2e_terminates (w : List β) (wv : List (List β)) (k : Nat) (tape : List Nat)
+    (ht : wv.length * (wv.length - 1) ≤ tape.length) :
+    (selSPEA2E (fun n => (n : β)) w wv k tape).isSome :=
+  selSPEA2E_total w wv k tape ht
+
+/-- archive too small (two non-dominated individuals, `k = 3`): an answer exists on the all-zero tape. -/
+example : ∃ res, selSPEA2E (fun n => ((n : Nat) : ℚ)) [1, 1] [[1, 2], [2, 1], [0, 0], [0, 1]] 3
+    (List.replicate 12 0) = some res :=
+  Option.isSome_iff_exists.1 (spea2_e2e_terminates _ _ _ _ (by decide))
+
+end SPEA2E
 
 /-! ## NSGA-III (`niching`, `selNSGA3`, emo.py:492-573, 643-677)
 
@@ -512,6 +709,71 @@ example : ([[3], [0, 1, 2]] : List (List Nat)).getLast? = some [0, 1, 2] ∧
     ([[0.0, 1.0], [1.0, 0.0]] : List (List Float)) ≠ [] := ⟨by decide, by decide, List.cons_ne_nil _ _⟩
 
 end Full
+
+/-! ### `selNSGA3` end to end (`selNSGA3E`): the non-dominated sort included -/
+
+section NSGA3E
+variable {α : Type} [RealLike α]
+variable {𝕜 : Type} [Field 𝕜] [LinearOrder 𝕜] [IsStrictOrderedRing 𝕜] [Inhabited 𝕜]
+
+/-- `selNSGA3E` = the C04 model of `sortNondominated` / `sortLogNondominated` on the weighted values →
+`-wvalues` → normalisation → association → niching, nothing taken from the implementation but `solve`
+and the shuffles.  Whatever it answers: exactly `k` individuals (for `k ≤ n`), input objects none
+twice, no omitted individual of a strictly better front (smaller Pareto depth) than a selected one,
+and it is an answer of `selNSGA3Full` on the fronts the sort computed — so the balance and
+association clauses of `nsga3_full_spec` / `nsga3_full_association` hold for it. -/
+theorem nsga3_e2e_spec (toF : 𝕜 → α) (solve : List (List α) → List α → Option (List α))
+    (logSort : Bool) (wv : List (List 𝕜)) (k : Nat) (refs : List (List α)) (mb mw : Option (List α))
+    (me : Option (List (List α))) (tape : Tape) (res : List Nat)
+    (h : selNSGA3E toF solve logSort wv k refs mb mw me tape = .ok res)
+    (hne : wv ≠ []) (m : Nat) (hlen : ∀ x ∈ wv, x.length = m) (hm : logSort = true → 2 ≤ m)
+    (hk : 1 ≤ k) (hkN : k ≤ wv.length) :
+    res.length = k ∧ res.Nodup ∧ (∀ i ∈ res, i < wv.length) ∧
+    (∀ x ∈ mkPop wv, ∀ y ∈ mkPop wv, x.id ∈ res →
+      depth domI (mkPop wv) y < depth domI (mkPop wv) x → y.id ∈ res) ∧
+    ∃ fronts, sortBy logSort wv k = some fronts ∧
+      selNSGA3Full solve fronts k (fun i => (wv.getD i []).map (fun x => - toF x)) refs mb mw me tape
+        = .ok res := by
+  obtain ⟨⟨fronts, hs, hf⟩, hd⟩ := selNSGA3E_spec toF solve logSort wv k refs mb mw me tape res h hne m hlen hm
+  obtain ⟨s1, s2, s3, _⟩ := sortBy_shape logSort wv k hne m hlen hm fronts hs
+  obtain ⟨f1, f2, _, _⟩ := selNSGA3Full_spec solve fronts k _ refs mb mw me tape res hf
+  have hdl : fronts.dropLast.flatten.length ≤ k := by
+    by_cases hfe : fronts = []
+    · subst hfe; simp
+    · exact Nat.le_of_lt (s3 hfe)
+  exact ⟨f1 hdl, (f2 s1).1, fun i hi => s2 i ((f2 s1).2 i hi), hd, fronts, hs, hf⟩
+
+example : sortBy false ([[2, 2], [1, 0], [0, 1], [0, 0]] : List (List ℚ)) 2 = some [[0], [1, 2]] ∧
+    ([[2, 2], [1, 0], [0, 1], [0, 0]] : List (List ℚ)) ≠ [] ∧
+    (∀ x ∈ ([[2, 2], [1, 0], [0, 1], [0, 0]] : List (List ℚ)), x.length = 2) := by
+  refine ⟨by decide +kernel, by simp, by decide⟩
+
+/-- `selNSGA3E` terminates and raises nothing (1 ≤ k ≤ n, a non-empty reference set): the sort
+terminates (C04) and the only failure left is a tape that does not fit. -/
+theorem nsga3_e2e_terminates (toF : 𝕜 → α) (solve : List (List α) → List α → Option (List α))
+    (logSort : Bool) (wv : List (List 𝕜)) (k : Nat) (refs : List (List α)) (mb mw : Option (List α))
+    (me : Option (List (List α))) (tape : Tape)
+    (hne : wv ≠ []) (m : Nat) (hlen : ∀ x ∈ wv, x.length = m) (hm : logSort = true → 2 ≤ m)
+    (hk : 1 ≤ k) (hkN : k ≤ wv.length) (hr : refs ≠ []) :
+    ∀ e, selNSGA3E toF solve logSort wv k refs mb mw me tape = .error e → e = Err.badTape := by
+  intro e he
+  have hsome := sortBy_isSome logSort wv k hne m hlen hm
+  obtain ⟨fronts, hs⟩ := Option.isSome_iff_exists.1 hsome
+  obtain ⟨_, _, _, s4⟩ := sortBy_shape logSort wv k hne m hlen hm fronts hs
+  have hkf : k ≤ fronts.flatten.length := by rw [Nat.min_eq_left hkN] at s4; exact s4
+  have hfne : fronts ≠ [] := by intro h0; subst h0; simp at hkf; omega
+  obtain ⟨last, hl⟩ : ∃ last, fronts.getLast? = some last := by
+    cases hg : fronts.getLast? with
+    | none => exact absurd (List.getLast?_eq_none_iff.1 hg) hfne
+    | some l => exact ⟨l, rfl⟩
+  unfold selNSGA3E at he
+  rw [hs] at he
+  exact selNSGA3Full_fine solve fronts k _ refs mb mw me tape last hl hkf hr e he
+
+example : (1 : Nat) ≤ 2 ∧ 2 ≤ ([[2, 2], [1, 0], [0, 1], [0, 0]] : List (List ℚ)).length ∧
+    ([[0.0, 1.0], [1.0, 0.0]] : List (List Float)) ≠ [] := ⟨by decide, by decide, List.cons_ne_nil _ _⟩
+
+end NSGA3E
 
 /-- the association with every dimension explicit: all vectors have `M` coordinates (so no
 `zipWith` truncation), the reference directions are non-zero, the denominators of the normalisation
